@@ -253,9 +253,7 @@ c.param("self", T.Obj("pdfminer.converter:PDFLayoutAnalyzer", ctm=M6(), cur_item
 c.param("gstate", GSv()).param("stroke", T.Bool()).param("fill", T.Bool()).param("evenodd", T.Bool()).param("path", _Path(_SHAPES))
 c.mod("self.cur_item._added")
 c.max_paths = 60000
-_INF = (1 << 31) - 1      # utils.INF: the sentinel get_bound starts from (device coordinates are assumed to lie inside it)
-c.req("device-coordinates-inside-the-INF-sentinel", lambda self, path: And(*[
-    And(lt(-_INF, p[0]), lt(p[0], _INF), lt(-_INF, p[1]), lt(p[1], _INF)) for p in _dev_pts(self, path)]))
+# (no bound on the device coordinates is needed any more: since fix 78704e1 the empty-box sentinel of get_bound is infinity)
 
 
 def _added(self):
@@ -363,7 +361,7 @@ c.ens("each-in-order-with-its-own-points", lambda self, path: And(*[
 
 
 @bounded("path-programs-vs-oracle", props=["C16"],
-         bound="random programs of 4..14 operators over m l c v y h re, S s f f* B B* b b* n, w d, g G rg RG k K, q Q cm on a small dyadic grid; quick 200, thorough 5000")
+         bound="random programs of 4..14 operators over m l c v y h re, S s f f* B B* b b* n, w d, g G rg RG k K, q Q cm on a small dyadic grid; quick 200, thorough 40000")
 def _(tier, seed):
     import io, random
     from fractions import Fraction as F
@@ -372,7 +370,7 @@ def _(tier, seed):
     rng = random.Random(seed + 16)
     layout = real_module("pdfminer.layout")
     hl = real_module("pdfminer.high_level")
-    n_prog = 200 if tier == "quick" else 5000
+    n_prog = 200 if tier == "quick" else 40000
     grid = [F(0), F(5), F(10), F(10), F(25, 2), F(20)]
     co = lambda: rng.choice(grid)
     failures, evals, distinct = [], 0, set()
